@@ -985,3 +985,18 @@ Proof.
   eexists. split; [vm_lhs|]. split; [vm_lhs|]. split; [vm_lhs|]. split; [vm_lhs|].
   repeat constructor.
 Qed.
+
+(* the bound in its usual form: a freshly parked flusher, timeout tmo > 0 steps *)
+Corollary tick_bound_tmo hk ls s m thr tmo :
+  h_fl (s_h s) = [(0%Z, false)] -> h_mem (s_h s) = Some m -> st_async (m_set m) = Some (thr, tmo) ->
+  (0 < tmo)%Z ->
+  exists j, (j < Z.to_nat tmo)%nat /\
+    let sj := run hk ls s (repeat OTick j) in
+    sj = mk (set_fl (s_h s) [(Z.of_nat j, false)]) (s_w s) /\
+    flush_due (s_h sj) thr tmo (Z.of_nat j + 1)%Z = true.
+Proof.
+  intros Hfl Hm Ha Ht.
+  destruct (tick_bound hk ls (Z.to_nat tmo) s 0%Z m thr tmo Hfl Hm Ha ltac:(lia) ltac:(lia)) as [j [Hj H]].
+  exists j. split; [exact Hj|]. cbv zeta in *. rewrite !Z.add_0_l in H. exact H.
+Qed.
+Print Assumptions tick_bound_tmo.
